@@ -38,7 +38,7 @@ m = {
                  "kind_free_text": "Go test binaries built against /repo's working tree: pgregory.net/rapid generators (configurations, operation histories, fault plans, schedules) and bounded-exhaustive enumerations, judged by an independent reference model; driven and sharded by ./check"}],
     "checks": checks,
     "not_applicable": na,
-    "notes": "Technique family: property-based testing and fuzzing. ./check <ID> <tier> rebuilds from /repo, runs the generated cases, rewrites evidence/<ID>.json. Exit 2 = inconclusive (build failure, deadline).",
+    "notes": "Technique family: property-based testing and fuzzing. ./check <ID> <tier> rebuilds from /repo, runs the generated cases, rewrites evidence/<ID>.json. Exit 2 = inconclusive (build failure, deadline). Known findings (genuine defects recorded rather than repaired) and the log of repaired ones: /verif/known_findings.json; a check reports a listed finding as KNOWN-FINDING and exits 0.",
 }
 json.dump(m, open(os.path.join(ROOT, "MANIFEST.json"), "w"), indent=1)
 print("checks:", len(checks), "not_applicable:", len(na))
